@@ -432,7 +432,7 @@ add(
       build="bare", timeout=1500),
     H("dir::verif::ops::find_free_entries_spec_all_bytes", ["C01", "C03", "C05"],
       "same with all 128 bytes of the window arbitrary", "fixed root, 4 arbitrary slots (all 2^1024 contents) + zero tail, n in 1..=3",
-      build="bare", timeout=7200, tier="thorough"),
+      build="bare", timeout=1800),
 )
 for s in range(4):
     add(H("dir::verif::ops::diriter_step_from%d" % s, ["C01", "C08", "C13", "C17"],
